@@ -259,7 +259,12 @@ class RunExplorer(reach.Explorer):
         self.on_crash = lambda st, ev, alg, pre, e: on_crash(self, st, ev, alg, pre, e)
         self.wfac = WFAC[:K] if not self.bandit else None
         # smaller menu: default + a few single deviations (shape changes move the acquisition maximiser)
-        keep = [0, 1, 5, 9, 18] if (self.kind == "rect" and m == 2 and not self.bandit) else list(range(min(4, len(self.items))))
+        if self.kind == "rect" and m == 2 and not self.bandit:
+            keep = [0, 1, 5, 9, 18, 27]
+        elif self.kind == "ell" and m == 2 and not self.bandit:
+            keep = [0, 1, 5, 15, 20]  # centred isotropic, offset, anisotropic, CORRELATED (trace != sum of entries), collapsed
+        else:
+            keep = list(range(min(4, len(self.items))))
         self.items = [self.items[k] for k in keep if k < len(self.items)]
         self.pair_items = [1] if len(self.items) > 1 else []
 
